@@ -167,139 +167,24 @@ def check_config(rep, prog):
 
     # ---- K-mesh
     mesh_new_contract(rep, prog, items)
+    # the caller's side of the contract (precondition on every path, running maximum over every face, '/'-field order) by interpreting
+    # parse_obj itself on scripted inputs (sa/obj_sem.py): no panic, Ok with exactly the position indices when all are valid, otherwise
+    # Err(IndexOutOfBounds(_, largest offending index)) - wherever and however the maximum is kept and checked
+    from . import obj_sem as OBJ, absint as A_
     po = prog.body(ROOTS[0])
     sl = items.slicer(po)
-    calls = [(bi, t) for bi, t in po.calls(lambda c: facts.callee_matches(c, "mesh::Mesh::<A, B>::new"))]
-    rep.floor("C14.K-mesh.call", len(calls), 1, "call to Mesh::new in parse_obj")
-    for bi, t in calls:
-        faces_t = T.strip(sl.operand(t["args"][0]), sites=False, refs=True)
-        verts_t = T.strip(sl.operand(t["args"][1]), sites=False, refs=True)
-
-        def vec_source(x):
-            """the Vec local an iterator chain drains: innermost into_iter argument"""
-            c = [s for s in T.walk(x) if s[0] == "call" and "into_iter" in s[1]]
-            return T.strip(c[-1][2][0], sites=False, refs=True) if c else x
-        faces_v, verts_v = vec_source(faces_t), vec_source(verts_t)
-
-        def is_len_of(x, v):
-            return x[0] == "call" and x[1].split(" => ")[0].endswith("Vec::<T, A>::len") and T.strip(x[2][0], sites=False, refs=True) == v
-
-        def is_maxpos(x):
-            x = T.strip(x, refs=True)
-            return x[0] == "field" and x[2] == "Indices.pos" or (x[0] == "phi" and any(is_maxpos(y) for y in x[2]))
-        est = []
-        for sb, tr, fa in G.bool_edges(po, sl, lambda d: d[0] == "bin" and d[1] in ("Ge", "Gt", "Lt", "Le")):
-            d, _neg = G.strip_not(sl.operand(po.term(sb)["discr"]))
-            a, b = T.strip(d[2], sites=True), T.strip(d[3], sites=True)
-            if d[1] == "Ge" and is_maxpos(d[2]) and is_len_of(T.strip(d[3], sites=False), verts_v):
-                est += fa          # !(max >= len)
-            elif d[1] == "Lt" and is_maxpos(d[2]) and is_len_of(T.strip(d[3], sites=False), verts_v):
-                est += tr
-            elif d[1] == "Gt" and is_len_of(T.strip(d[2], sites=False), verts_v) and is_maxpos(d[3]):
-                est += tr          # len > max
-            elif d[1] == "Le" and is_len_of(T.strip(d[2], sites=False), verts_v) and is_maxpos(d[3]):
-                est += fa
-        # a local checker `check(.., Some(max_pos), verts.len())?`: the Continue edge of its `?` establishes what every Ok-return of the
-        # checker is guarded by (its summary), with the parameters replaced by the arguments
-        for cb_i, ct in po.calls():
-            cname = (ct["callee"].get("res") or {}).get("path") or ct["callee"]["path"]
-            callee = prog.lookup(cname)
-            if callee is None or callee.kind not in ("Fn", "AssocFn") or callee.file != po.file or "mesh::" in cname:
-                continue
-            for (op, li, ri, passing) in _checker_summary(prog, callee):
-                args = [T.strip(sl.operand(a_), sites=False, refs=True) for a_ in ct["args"]]
-                la, ra = _subst_params(li, args), _subst_params(ri, args)
-                ok_cmp = (op in ("Ge", "Gt") and passing is False and is_maxpos(la) and is_len_of(ra, verts_v)) or \
-                         (op in ("Lt", "Le") and passing is True and is_maxpos(la) and is_len_of(ra, verts_v))
-                if not ok_cmp:
-                    continue
-                # the `?` consuming this call's result
-                CF = "core::ops::control_flow::ControlFlow"
-                cont = G.variant_edges(prog, po, sl, lambda p_, site=(po.path, cb_i): T.contains(p_, lambda q: q[0] == "call" and len(q) > 3 and q[3] == site), CF, "Continue")
-                est += cont
-        for sb, tr, fa in G.bool_edges(po, sl, lambda d: d[0] == "call" and d[1].split(" => ")[0].endswith("Vec::<T, A>::is_empty")
-                                       and T.strip(d[2][0], sites=False, refs=True) == faces_v):
-            est += tr              # no faces at all
-        established = bool(est) and G.guarded_by(po, bi, est)
-        rep.inst("C14.K-mesh", "call Mesh::new(faces<-%s, verts<-%s): every path passes `max_pos < verts.len()` or `faces.is_empty()`: %s (%d establishing edges)"
-                 % (T.show(faces_v)[:40], T.show(verts_v)[:40], established, len(est)), config=cfg)
-        if not established:
-            # name the escaping path
-            r = po.reachable(0, removed_edges=set(est))
-            rep.violate("C14.K-mesh", "K-mesh|precondition", po.where(bi, None),
-                        "a path reaches Mesh::new without having checked the largest face index against verts.len() "
-                        "(nor that there are no faces): Mesh::new's index assertion can fire", config=cfg)
-        # (c) running maximum
-        pushes = [(pb, pt) for pb, pt in po.calls(lambda c: facts.callee_matches(c, "Vec::<T, A>::push"))
-                  if T.strip(sl.operand(pt["args"][0]), sites=False, refs=True) == faces_v]
-        rep.floor("C14.K-mesh.push", len(pushes), 1, "faces.push(..) site")
-        upd = []
-        for ub, us, s in po.stmts():
-            if s["k"] == "Assign":
-                pl = s["lhs"]["p"]
-                if pl and isinstance(pl[-1], dict) and pl[-1].get("n") == "pos" and pl[-1].get("of", "").endswith("io::Indices"):
-                    upd.append((ub, us, s, sl.rvalue(s["rv"], 0, ())))
-        for pb, pt in pushes:
-            tri = T.strip(sl.operand(pt["args"][1]), sites=False, refs=True)
-            ok = False
-            for ub, us, s, v in upd:
-                # value = max(old, elem.pos) with elem an item of tri.0
-                if v[0] == "call" and v[1].split(" => ")[0].endswith("cmp::Ord::max"):
-                    args = [T.strip(a, sites=False, refs=True) for a in v[2]]
-                    elem = [a for a in args if a[0] == "field" and a[2] == "Indices.pos" and T.contains(a[1], lambda q: q[0] == "call" and "::next" in q[1])]
-                    old = [a for a in args if is_maxpos(a) and a not in elem]
-                    if elem and old:
-                        src = [q for q in T.walk(elem[0]) if q[0] == "call" and "into_iter" in q[1]]
-                        over_tri = bool(src) and T.strip(src[-1][2][0], sites=False, refs=True) == ("field", tri, "Tri.0")
-                        # the push happens only after the loop over tri.0 has finished
-                        heads = [hb for hb, ht in po.calls(lambda c: facts.callee_matches(c, "Iterator::next"))
-                                 if T.contains(T.strip(sl.operand(ht["args"][0]), sites=False, refs=True), lambda q: q == src[-1])] if src else []
-                        after = bool(heads) and all(po.dominates(h, pb) and pb not in po.natural_loop(h) for h in heads)
-                        # ... and the update is executed on EVERY iteration of that loop
-                        every = bool(heads)
-                        for h in heads:
-                            r = po.reachable_from_succs(h, removed_blocks={ub}, unwind=False)
-                            body_blocks = po.natural_loop(h) - {h}
-                            # leaving the head into the loop body and coming back without the update
-                            for (dst, lab) in po.term_edges(h, unwind=False):
-                                pass
-                            succ_in_loop = [d for d in po.succs(h, unwind=False) if d in body_blocks]
-                            for d0 in succ_in_loop:
-                                # follow the Some edge (the next block switches on the discriminant)
-                                rr = po.reachable(d0, removed_blocks={ub}, unwind=False)
-                                if h in rr and ub != d0:
-                                    # is the path back to the head inside the loop body (not via loop exit)?
-                                    inner = po.reachable(d0, removed_blocks={ub} | (set(range(len(po.blocks))) - body_blocks - {h}), unwind=False)
-                                    if h in inner:
-                                        every = False
-                        if over_tri and after and every:
-                            ok = True
-            if not ok:
-                # the same thing written as a fold: max_i = tri.0.into_iter().fold(max_i, <component-wise max>)
-                for fb_, ft_ in po.calls(lambda c: facts.callee_matches(c, "Iterator::fold")):
-                    fargs = [T.strip(sl.operand(a_), sites=False, refs=True) for a_ in ft_["args"]]
-                    src = [q for q in T.walk(fargs[0]) if q[0] == "call" and "into_iter" in q[1]]
-                    over_tri = bool(src) and T.strip(src[-1][2][0], sites=False, refs=True) == ("field", tri, "Tri.0")
-                    carried = T.contains(fargs[1], lambda q: q[0] == "phi") or T.contains(fargs[1], lambda q: q[0] == "agg" and q[1].endswith("Indices::Indices"))
-                    fn = fargs[2]
-                    fbody = prog.lookup(fn[1].split(" => ")[-1]) if fn[0] == "fnptr" else (prog.bodies.get(fn[1][8:]) if fn[0] == "agg" and fn[1].startswith("closure:") else None)
-                    is_max = False
-                    if fbody is not None:
-                        off = 1 if fbody.kind == "Closure" else 0
-                        rt_ = T.strip(T.Slicer(fbody).local(0), sites=True, refs=True)
-                        for q in T.walk(rt_):
-                            if q[0] == "agg" and q[1].endswith("Indices::Indices") and q[2]:
-                                p0 = T.strip(q[2][0], sites=True, refs=True)
-                                if p0[0] == "call" and p0[1].split(" => ")[0].endswith("cmp::Ord::max"):
-                                    ops_ = {T.strip(x_, sites=True, refs=True) for x_ in p0[2]}
-                                    is_max = ops_ == {("field", ("param", 1 + off), "Indices.pos"), ("field", ("param", 2 + off), "Indices.pos")}
-                    dest_used = po.dominates(fb_, pb)
-                    if over_tri and carried and is_max and dest_used:
-                        ok = True
-            rep.inst("C14.K-mesh", "faces.push(tri) at %s is preceded by `max_pos = max(max_pos, i.pos)` over all of tri.0: %s" % (po.where(pb, None), ok), config=cfg)
-            if not ok:
-                rep.violate("C14.K-mesh", "K-mesh|running-max", po.where(pb, None),
-                            "a face is stored without its position indices having been folded into the running maximum that is later checked", config=cfg)
+    try:
+        n_sc, findings = OBJ.check(prog)
+    except A_.Undecided as e:
+        raise common.Infra("C14.K-mesh: parse_obj could not be interpreted on the scripted inputs (%s%s)" % (e, ("; in " + " < ".join(x for x in getattr(e, "stack", []) if not x.startswith("  "))[:200]) if getattr(e, "stack", None) else ""))
+    rule_of = {"panic": "K-mesh", "precondition": "K-mesh", "error-value": "K-mesh", "rejects-valid": "K-mesh", "faces": "F-order", "verts": "F-order"}
+    rep.inst("C14.K-mesh", "parse_obj interpreted on %d scripted inputs (valid / invalid position, texture and normal indices, several faces, face lines before vertex lines, "
+             "empty input): never panics, fails with the largest offending index exactly when one is out of range: %s" % (n_sc, not any(rule_of[k] == "K-mesh" for k, _m in findings)), config=cfg)
+    rep.inst("C14.F-order", "the mesh it returns has exactly the position indices (first '/'-field) of the face lines and the vertex lines, in order: %s"
+             % (not any(rule_of[k] == "F-order" for k, _m in findings)), config=cfg)
+    for key, msg in findings:
+        rule = rule_of[key]
+        rep.violate("C14." + rule, ("K-mesh|%s" % key) if rule == "K-mesh" else "F-order", po.where(), msg, config=cfg)
 
     # ---- B-build
     rt = sl.local(0)
@@ -349,7 +234,6 @@ def check(rep, args):
     rep.configs = configs
     for cfg in configs:
         rep.guard(check_config, rep, facts.program(cfg))
-        rep.guard(index_order_rule, rep, facts.program(cfg))
     cov = {
         "explanation": "exhaustive panic-edge enumeration over the call graph below parse_obj/read_obj with schema-based discharge, "
                        "plus the Mesh::new callee contract (attribution, precondition on every path, running-maximum invariant)",
